@@ -21,8 +21,17 @@ CACHE = os.path.join(ROOT, '.cache')
 KANI_VERSION = 'kani-0.68.0'
 
 
+MEM_LIMIT = int(os.environ.get('VERIF_KANI_MEM_GB', '24')) * 1024 ** 3
+
+
+def _limits():
+    import resource
+    # CBMC can exhaust memory on failing variants of a harness; a run that hits the limit is undecided, never an alarm
+    resource.setrlimit(resource.RLIMIT_AS, (MEM_LIMIT, MEM_LIMIT))
+
+
 def sh(cmd, **kw):
-    return subprocess.run(cmd, stdout=subprocess.PIPE, stderr=subprocess.STDOUT, text=True, **kw)
+    return subprocess.run(cmd, stdout=subprocess.PIPE, stderr=subprocess.STDOUT, text=True, preexec_fn=_limits, **kw)
 
 
 def src_digest(repo):
@@ -178,7 +187,7 @@ def run(unit_name, repo, tier, seed):
                 for n in names:
                     cmd += ['--harness', n]
                 try:
-                    p = sh(cmd, cwd=scratch, env=env, timeout=int(os.environ.get('VERIF_KANI_TIMEOUT', '2400')))
+                    p = sh(cmd, cwd=scratch, env=env, timeout=int(os.environ.get('VERIF_KANI_TIMEOUT', '900')))
                     out = p.stdout
                 except subprocess.TimeoutExpired as e:
                     out = (e.stdout or '') if isinstance(e.stdout, str) else ''
@@ -192,8 +201,12 @@ def run(unit_name, repo, tier, seed):
                 for n in names:
                     r = parsed.get(n)
                     if r and r['status'] == 'failed' and not r['unwind_fail']:
-                        pp = sh(['cargo', 'kani', '--lib', '--harness', n, '-Z', 'concrete-playback', '--concrete-playback=print',
-                                 '--output-format', 'terse'] + spec.get('flags', []), cwd=scratch, env=env, timeout=2400)
+                        try:
+                            pp = sh(['cargo', 'kani', '--lib', '--harness', n, '-Z', 'concrete-playback', '--concrete-playback=print',
+                                     '--output-format', 'terse'] + spec.get('flags', []), cwd=scratch, env=env, timeout=600)
+                        except subprocess.TimeoutExpired:
+                            r['playback_error'] = 'concrete playback timed out'
+                            continue
                         blocks = re.findall(r'```\s*\n(.*?)```', pp.stdout, flags=re.S)
                         blocks = [b for b in blocks if 'Check for `cover`' not in b] or blocks
                         if blocks:
